@@ -1,6 +1,9 @@
 import Lean.Data.Json
 import HtaVerif.Model.C04
 import HtaVerif.Spec.C04
+import HtaVerif.Spec.C07
+import HtaVerif.Spec.C05
+import HtaVerif.Spec.C15
 /-!
 `htadrv` — line protocol driver. One JSON request per input line, one JSON answer per
 output line. Imports only `Model/*` and `Spec/*` (core Lean), never a proof file.
@@ -48,6 +51,24 @@ def c04Out (o : C04.Out) : Json :=
   Json.mkObj [("idle", jInt o.idle), ("compute", jInt o.compute),
     ("non_compute", jInt o.nonCompute), ("kernel_time", jInt o.kernelTime)]
 
+def kernels (j : Json) : Except String (List (String × Int)) := do
+  let a ← getArr j
+  a.toList.mapM fun p => do
+    let q ← getArr p
+    if q.size != 2 then throw "kernel: expected [name, dur]"
+    return (← getStr q[0]!, ← getInt q[1]!)
+
+def stat (j : Json) : Except String C05.Stat := do
+  let q ← getArr j
+  if q.size != 5 then throw "stat: expected [name,sum,max,min,count]"
+  return { name := ← getStr q[0]!, sum := ← getInt q[1]!, max := ← getInt q[2]!, min := ← getInt q[3]!,
+           count := (← getInt q[4]!).toNat }
+
+def aggrOut (o : C05.AggrOut) : Json :=
+  Json.mkObj [("named", Json.arr (o.named.map fun s =>
+      Json.arr #[Json.str s.name, jInt s.sum, jInt s.max, jInt s.min, jInt s.count]).toArray),
+    ("others", match o.others with | none => Json.null | some v => jInt v)]
+
 def handle (j : Json) : Except String Json := do
   let op ← getStr (← field j "op")
   match op with
@@ -72,6 +93,50 @@ def handle (j : Json) : Except String Json := do
     let K := C04.deviceRows rs
     let C := K.filter fun r => kernelType r.name == .computation
     return Json.mkObj [("ok", Json.bool (C04.check (K.map Row.iv) (C.map Row.iv) out))]
+  | "c07" =>
+    let rs ← rows (← field j "rows")
+    let o := C07.run kernelType rs
+    return Json.mkObj [("num", jInt o.num), ("den", jInt o.den)]
+  | "c07.exact" =>
+    let rs ← rows (← field j "rows")
+    let K := C04.deviceRows rs
+    let comm := (K.filter fun r => kernelType r.name == .communication).map Row.iv
+    let comp := (K.filter fun r => kernelType r.name == .computation).map Row.iv
+    let o := C07.exact comm comp
+    return Json.mkObj [("num", jInt o.num), ("den", jInt o.den)]
+  | "c05.types" =>
+    let rs ← rows (← field j "rows")
+    let wm ← getBool (← field j "with_memory")
+    let out := (C05.runTypeTimes kernelType wm rs).map fun (m, t) => Json.arr #[jInt m, jInt t]
+    return Json.mkObj [("times", Json.arr out.toArray)]
+  | "c05.types.exact" =>
+    let rs ← rows (← field j "rows")
+    let wm ← getBool (← field j "with_memory")
+    let types := C05.perType kernelType wm rs
+    let top : Nat := if wm then 7 else 3
+    let out := (List.range top).map fun (i : Nat) =>
+      Json.arr #[jInt (Int.ofNat i + 1), jInt (C05.exactTypeTime types (Int.ofNat i + 1))]
+    return Json.mkObj [("times", Json.arr out.toArray)]
+  | "c05.aggr" =>
+    let ks ← kernels (← field j "kernels")
+    let k ← getInt (← field j "num_kernels")
+    let j0 ← getInt (← field j "j0")
+    let o := C05.runAggr ks k.toNat j0.toNat
+    return aggrOut o
+  | "c05.aggr.check" =>
+    let ks ← kernels (← field j "kernels")
+    let k ← getInt (← field j "num_kernels")
+    let o ← field j "out"
+    let named ← (← getArr (← field o "named")).toList.mapM stat
+    let others : Option Int := match (← field o "others") with
+      | Json.null => none
+      | v => v.getInt?.toOption
+    return Json.mkObj [("ok", Json.bool (C05.checkAggr ks k.toNat { named, others }))]
+  | "c15" =>
+    let rs ← rows (← field j "rows")
+    let wm ← getBool (← field j "with_memory")
+    let out := (C15.run wm rs).map fun o => Json.arr #[jInt o.corr, jInt o.cpuDur, jInt o.gpuDur, jInt o.delay]
+    return Json.mkObj [("rows", Json.arr out.toArray)]
   | _ => throw s!"unknown op {op}"
 
 partial def loop (hin hout : IO.FS.Stream) : IO Unit := do
